@@ -42,15 +42,16 @@ type Step struct {
 }
 
 type Scenario struct {
-	Property string     `json:"property"`
-	Profile  string     `json:"profile"`
-	Seed     uint64     `json:"seed"`
-	Tree     string     `json:"tree,omitempty"`
-	Class    string     `json:"class,omitempty"`
-	Forged   int        `json:"forged,omitempty"` // percent of block deliveries preceded by a forged (rejected) message
-	Nodes    []NodeCfg  `json:"nodes"`
-	Steps    []Step     `json:"steps"`
-	Expect   *Violation `json:"expect,omitempty"`
+	Property    string     `json:"property"`
+	Profile     string     `json:"profile"`
+	Seed        uint64     `json:"seed"`
+	Tree        string     `json:"tree,omitempty"`
+	Class       string     `json:"class,omitempty"`
+	PrefixShare bool       `json:"prefix_share,omitempty"` // all leaf hashes of the run agree in their first 27 bytes (profiles without pointer forests only)
+	Forged      int        `json:"forged,omitempty"`       // percent of block deliveries preceded by a forged (rejected) message
+	Nodes       []NodeCfg  `json:"nodes"`
+	Steps       []Step     `json:"steps"`
+	Expect      *Violation `json:"expect,omitempty"`
 }
 
 func (s *Scenario) Clone() *Scenario {
